@@ -271,13 +271,14 @@ func (ex *Exec) doAssert(label string, cond *Term) {
 	rec.Result, rec.Model, rec.By = res, model, by
 	ex.asserts = append(ex.asserts, rec)
 	if cond.IsFalse() {
-		ex.abort("violation-end", "assertion %s is false on this path", label)
+		// the assertion is false on this whole path: recorded; execution continues (as the native replay does)
+		return
 	}
-	// continue under the assumption that the assertion holds
+	// continue under the assumption that the assertion holds, if that is possible on this path
 	if res == "sat" {
 		r, _ := ex.sess.CheckZ3(cond, false)
 		if r == "unsat" {
-			ex.abort("violation-end", "assertion %s always false on this path", label)
+			return
 		}
 	}
 	ex.addPC(cond)
